@@ -312,7 +312,14 @@ func writeT[S, D signal.SignalTypes](in []int64, dst *signal.Buffer[D]) int {
 	end()
 	return n
 }
+// rowLensAfter: lengths of the caller's per-channel slices after the last WriteStriped call (they are elements of
+// the caller's outer slice and must be left alone); single-goroutine use only.
+var rowLensAfter []int
+
 func writeStripedT[S, D signal.SignalTypes](ins [][]int64, nils []bool, dst *signal.Buffer[D]) int {
+	if !concurrentRecording {
+		rowLensAfter = nil
+	}
 	src := make([][]S, len(ins))
 	for c := range ins {
 		if !nils[c] {
@@ -322,11 +329,22 @@ func writeStripedT[S, D signal.SignalTypes](ins [][]int64, nils []bool, dst *sig
 			}
 		}
 	}
+	defer func() {
+		if !concurrentRecording {
+			rowLensAfter = make([]int, len(src))
+			for c := range src {
+				rowLensAfter[c] = len(src[c])
+			}
+		}
+	}()
 	begin()
 	n := signal.WriteStriped(src, dst)
 	end()
 	return n
 }
+
+// concurrentRecording is set while goroutines record in parallel (package-level scratch is then left alone).
+var concurrentRecording bool
 func readT[S, D signal.SignalTypes](src *signal.Buffer[S], n int, sentinel int64) (int, []int64) {
 	dst := make([]D, n)
 	for i := range dst {
